@@ -51,6 +51,14 @@ func genC03(t *rapid.T) c03Scen {
 			s.Ops = append(s.Ops, c03Op{Op: "pub", QoS: byte(rapid.SampledFrom([]int{0, 1, 1, 2, 2}).Draw(t, "qos"))})
 		case k <= 13:
 			s.Ops = append(s.Ops, c03Op{Op: "ack", K: rapid.IntRange(0, 4).Draw(t, "k"), NB: rapid.IntRange(0, 3).Draw(t, "nb") == 0})
+			// aimed: the same final acknowledgement once more, then new messages (the identifier the poller holds in
+			// reserve is often the one just acknowledged, F-stray-ack-widens-window)
+			if rapid.IntRange(0, 5).Draw(t, "ack_twice") == 0 {
+				s.Ops = append(s.Ops, c03Op{Op: "reack"})
+				for k := rapid.IntRange(1, 3).Draw(t, "pubs_after_reack"); k > 0; k-- {
+					s.Ops = append(s.Ops, c03Op{Op: "pub", QoS: byte(rapid.IntRange(1, 2).Draw(t, "qos"))})
+				}
+			}
 		case k == 14:
 			s.Ops = append(s.Ops, c03Op{Op: "ackerr", K: rapid.IntRange(0, 4).Draw(t, "k")})
 		case k <= 17:
